@@ -1,0 +1,14 @@
+//go:build verif
+
+package expr
+
+// Exported wrappers used only by the external verification harness (build tag verif), property C06.
+
+// VerifTokenize exposes the hand-written tokenizer.
+func VerifTokenize(s string) ([]string, error) { return tokenize(s) }
+
+// VerifUsesExprLang reports whether NewExpression gave up on the hand-written parser.
+func VerifUsesExprLang(e *Expression) bool { return e.useExprLang }
+
+// VerifCompareValues exposes compareValues.
+func VerifCompareValues(l, r any, op string) (bool, error) { return compareValues(l, r, op) }
